@@ -37,8 +37,8 @@ def fp_samples(c, n=6, tries=360):
     return out
 
 
-def compare(rep, c, outputs, tol, label, n=6):
-    """outputs: names of outputs to compare.  -> number of samples compared"""
+def compare(rep, c, outputs, tol, label, n=6, sample_ok=None):
+    """outputs: names of outputs to compare; sample_ok: optional predicate on the input values.  -> number of samples compared"""
     if not c.native or not c.native[0] or not os.path.exists(c.native[0]):
         return 0
     binary, scn = c.native
@@ -46,6 +46,8 @@ def compare(rep, c, outputs, tol, label, n=6):
     worst = (mp.mpf(0), None, None)
     done = 0
     for vals in samples:
+        if sample_ok is not None and not sample_ok(vals):
+            continue
         ev = numeval.DagEval(c.path, vals)
         exact = {}
         for name in outputs:
